@@ -2,7 +2,11 @@
   C16 — Sparse kernels equal their dense definitions.
   Property theorems only; helper lemmas live in Gama/Lemmas
   (SparseBasic, SparseCountingSort, SparseBuild, GraphAdj, Reach, RCMPerm, EnvelopeProfile,
-  EnvelopeLDL; block-diagonal Cholesky: CovBdMulti, CovBdIff, CovBdField on top of C10's CovBd, CovAgree).
+  EnvelopeLDL, SparseEmpty; block-diagonal Cholesky: CovBdMulti, CovBdIff, CovBdField on top of C10's CovBd, CovAgree).
+
+  NO theorem below assumes `0 < A.cols` or `0 < A.rows` except `C16_profile_shape` (a matrix without
+  columns has no profile: `C16_envelope_no_columns`); section "Matrices without columns / without rows"
+  says what the general statements amount to in these cases.
 
   Hypotheses that recur (none of them is checked by the C++, all are respected by its callers
   and by the correspondence harness):
@@ -22,6 +26,7 @@ import Gama.Lemmas.EnvelopeProfile
 import Gama.Lemmas.EnvelopeLDL
 import Gama.Lemmas.CovBdField
 import Gama.Lemmas.CovBdBuild
+import Gama.Lemmas.SparseEmpty
 namespace Gama.Props.C16
 open Gama
 
@@ -265,7 +270,7 @@ theorem C16_choldec_refines_dense {E : Env K} (hE : E.ProfileOK) (N : Dense K) (
          h2, h3⟩
 
 /-- End to end, from the sparse design matrix: for EVERY well-formed `A` (a column index may be
-    repeated inside a row — the values add up), ANY valid ordering `o` (the RCM ordering is one, `C16_rcm_perm_matrix`) and
+    repeated inside a row — the values add up; NO columns and NO rows included), ANY valid ordering `o` (the RCM ordering is one, `C16_rcm_perm_matrix`) and
     `tol > 0`, with `E = Envelope(A, graph(A), o)`, `N = PᵀAᵀAP` dense,
     `F = E.cholDec(tol)`, `f = dense LDLᵀ of N`:
     * `F` holds `L` and `D` of `f` (exact zeros on dependent pivots), same `defect`;
@@ -274,7 +279,7 @@ theorem C16_choldec_refines_dense {E : Env K} (hE : E.ProfileOK) (N : Dense K) (
     * `inverse(F)` equals the dense recurrence `Z = D⁻¹L⁻¹ + (I − Lᵀ)Z` on every cell of the
       profile, zero rows on zero pivots included. -/
 theorem C16_envelope_refines_dense (A : SMat K) (hA : A.WF)
-    (o : SOrdering) (ho : o.IsPerm A.cols) (hpos : 0 < A.cols) (tol : K) (htol : 0 < tol) :
+    (o : SOrdering) (ho : o.IsPerm A.cols) (tol : K) (htol : 0 < tol) :
     letI := ordFieldScalar K sq
     let F := (Env.ofSparse A (graphOf A) o).cholDec tol
     let f := Dense.ldl tol (Dense.normal A o.invp A.cols) A.cols
@@ -286,6 +291,20 @@ theorem C16_envelope_refines_dense (A : SMat K) (hA : A.WF)
       F.inverse.entry i j = (Dense.inverse f A.cols).get (i - 1) (j - 1)) := by
   let _ : Scalar K := ordFieldScalar K sq
   intro F f
+  by_cases hpos : 0 < A.cols
+  swap
+  · -- no columns: `Envelope::set` leaves the empty envelope, every loop has zero iterations
+    have h0 : A.cols = 0 := by omega
+    have hF : F = Env.empty := by
+      show (Env.ofSparse A (graphOf A) o).cholDec tol = _
+      rw [Env.ofSparse_zero A _ o h0]; rfl
+    refine ⟨fun i j h1 h2 h3 => by omega, fun i h1 h2 => by omega, ?_, ?_, fun i j h1 h2 h3 => by omega⟩
+    · show F.defect = (Dense.ldl tol (Dense.normal A o.invp A.cols) A.cols).defect
+      rw [hF, h0]; rfl
+    · intro b hb
+      show F.solve b A.cols = Dense.solve (Dense.ldl tol (Dense.normal A o.invp A.cols) A.cols) A.cols b
+      have hb0 : b = #[] := Array.eq_empty_of_size_eq_zero (by omega)
+      rw [hF, h0, hb0]; rfl
   have hE := Env.ofSparse_profileOK hA (graphOf_nodes A) (graphOf_adjOf A hA) ho hpos
   have hdim : (Env.ofSparse A (graphOf A) o).dim = A.cols := Env.ofSparse_dim A _ o
   have hN : ∀ i j, 1 ≤ j → j ≤ i → i ≤ (Env.ofSparse A (graphOf A) o).dim →
@@ -329,7 +348,7 @@ theorem C16_choldec_effective_tolerance (E : Env K) (tol : K)
     particular for the default `tol = 0` whenever `sq (2⁻⁵²) > 0` (true for a square root):
     the dense reference is run at `effTol tol`. -/
 theorem C16_envelope_refines_dense_any_tol (A : SMat K) (hA : A.WF)
-    (o : SOrdering) (ho : o.IsPerm A.cols) (hpos : 0 < A.cols) (tol : K)
+    (o : SOrdering) (ho : o.IsPerm A.cols) (tol : K)
     (htol : 0 < tol ∨ (tol ≤ 0 ∧ 0 < sq (1 / ((2 ^ 52 : Nat) : K)))) :
     letI := ordFieldScalar K sq
     let F := (Env.ofSparse A (graphOf A) o).cholDec tol
@@ -352,7 +371,7 @@ theorem C16_envelope_refines_dense_any_tol (A : SMat K) (hA : A.WF)
   have hF : F = (Env.ofSparse A (graphOf A) o).cholDec (Env.effTol tol) :=
     C16_choldec_effective_tolerance sq _ tol he
   rw [hF]
-  exact C16_envelope_refines_dense sq A hA o ho hpos (Env.effTol tol) he
+  exact C16_envelope_refines_dense sq A hA o ho (Env.effTol tol) he
 
 /-- non-vacuity of the default-tolerance hypothesis: over ℚ with `sq := fun _ => 2⁻²⁶`
     (the exact value of `sqrt(2⁻⁵²)`) -/
@@ -360,6 +379,101 @@ example : (0 : ℚ) ≤ 0 ∧ 0 < (fun _ : ℚ => (1 : ℚ) / 2 ^ 26) (1 / ((2 ^
   norm_num
 
 end ldl
+
+/-! ## Matrices without columns / without rows
+
+    `LocalNetwork` reaches both: a network without unknowns gives `cols = 0` (the graph has no node,
+    `Envelope::set` leaves all pointers null), a network without observations gives `rows = 0`.
+    `SparseMatrixGraph::connected()` wrote `tag(1)` past a one-cell array for `cols = 0` before fix
+    fb9ac93; the model is the fixed code (`connected_zero`). -/
+
+/-- **no columns** (any number of rows, all necessarily empty): nothing is stored; the transpose is the
+    well-formed `0 × rows` matrix without entries; the graph has no node, `connected()` answers
+    `false` (fix fb9ac93), the RCM ordering is the empty permutation; `Envelope::set` produces the empty
+    envelope, on which `cholDec`, `solve` (dimension 0) and `inverse` do nothing — and the dense
+    reference agrees (`defect = 0`, empty solution). -/
+theorem C16_no_columns {K : Type} [Scalar K] (A : SMat K) (h : A.WF) (h0 : A.cols = 0)
+    (o : SOrdering) (tol : K) (b : Array K) :
+    let _ : Inhabited K := ⟨0⟩
+    A.ncnt = 0 ∧
+    (A.transpose.rows = 0 ∧ A.transpose.cols = A.rows ∧ A.transpose.ncnt = 0 ∧ A.transpose.WF) ∧
+    ((graphOf A).nodes = 0 ∧ connected (graphOf A) = some false ∧ (rcm (graphOf A)).nodes = 0 ∧
+      (rcm (graphOf A)).IsPerm 0) ∧
+    (Env.ofSparse A (graphOf A) o = Env.empty ∧ (Env.empty : Env K).cholDec tol = Env.empty ∧
+      (Env.empty : Env K).solve b 0 = b ∧ (Env.empty : Env K).inverse = Env.empty) ∧
+    ((Dense.ldl tol (Dense.normal A o.invp 0) 0).defect = 0 ∧
+      Dense.solve (Dense.ldl tol (Dense.normal A o.invp 0) 0) 0 b = #[]) := by
+  let _ : Inhabited K := ⟨0⟩
+  have hn := SMat.ncnt_zero_of_cols_zero A h h0
+  have hg : (graphOf A).nodes = 0 := by rw [graphOf_nodes, h0]
+  have hp := rcm_isPerm (graphOf A) (graphOf_inRange A h) (graphOf_sym A h)
+  rw [hg] at hp
+  exact ⟨hn, ⟨h0, rfl, hn, SMat.transpose_WF A h⟩,
+    ⟨hg, connected_zero _ hg, by rw [rcm_nodes, hg], hp⟩,
+    ⟨Env.ofSparse_zero A _ o h0, rfl, rfl, rfl⟩, rfl, rfl⟩
+
+/-- the only statement that needs a column: a matrix without columns has no profile (the C++ leaves
+    `xenv_`, `diag_`, `env_` null), so `ProfileOK` — `xenv.size = dim + 2` — is false for it -/
+theorem C16_envelope_no_columns {K : Type} [Scalar K] (A : SMat K) (h0 : A.cols = 0) (g : Adj) (o : SOrdering) :
+    Env.ofSparse A g o = Env.empty ∧ ¬ (Env.empty : Env K).ProfileOK ∧ (Env.empty : Env K).dim = 0 :=
+  ⟨Env.ofSparse_zero A g o h0, fun hp => by have := hp.xenv_size; simp [Env.empty] at this, rfl⟩
+
+/-- **no rows** (any number of columns): nothing is stored; the transpose has `cols` empty rows; the
+    graph has `cols` isolated nodes, so it is connected exactly when there is ONE column; the RCM
+    ordering is still a permutation of the columns. -/
+theorem C16_no_rows {K : Type} [Inhabited K] (A : SMat K) (h : A.WF) (h0 : A.rows = 0) :
+    A.ncnt = 0 ∧ A.toRows = [] ∧ A.entries = [] ∧
+    (A.transpose.rows = A.cols ∧ A.transpose.ncnt = 0 ∧ A.transpose.WF ∧ A.transpose.entries = []) ∧
+    (∀ i, 1 ≤ i → i ≤ A.cols → (graphOf A).nbrs i = []) ∧
+    (connected (graphOf A) = some true ↔ A.cols = 1) ∧
+    (rcm (graphOf A)).IsPerm A.cols := by
+  have hn := SMat.ncnt_zero_of_rows_zero A h h0
+  have hnb : ∀ i, 1 ≤ i → i ≤ A.cols → (graphOf A).nbrs i = [] := by
+    intro i hi hi'
+    rw [List.eq_nil_iff_forall_not_mem]
+    intro j hj
+    obtain ⟨_, r, hr1, hr2, _⟩ := (graphOf_nbrs_iff A h i j hi hi').mp hj
+    omega
+  have hte : A.transpose.entries = [] := by
+    rw [List.eq_nil_iff_forall_not_mem]
+    rintro ⟨i, j, a⟩ hm
+    have := (SMat.mem_transpose_entries A h).mp hm
+    have he : A.entries = [] := by simp [SMat.entries, h0]
+    rw [he] at this; cases this
+  have hperm := rcm_isPerm (graphOf A) (graphOf_inRange A h) (graphOf_sym A h)
+  rw [graphOf_nodes] at hperm
+  refine ⟨hn, by simp [SMat.toRows, h0], by simp [SMat.entries, h0],
+    ⟨rfl, hn, SMat.transpose_WF A h, hte⟩, hnb, ?_, hperm⟩
+  rw [C16_connected_matrix A h]
+  constructor
+  · rintro ⟨h1, hall⟩
+    by_contra hne
+    have h2 : 2 ≤ A.cols := by omega
+    have hr := hall 2 (by omega) h2
+    have := reach_of_no_edges (graphOf A) 1 (fun b hb => by
+      have hb1 : b = 1 := by
+        induction hb with
+        | refl => rfl
+        | step hab hc ih =>
+          rw [ih, hnb 1 (Nat.le_refl 1) h1] at hc; cases hc
+      rw [hb1]; exact hnb 1 (Nat.le_refl 1) h1) 2 hr
+    omega
+  · intro h1
+    refine ⟨by omega, fun v hv1 hv2 => ?_⟩
+    have : v = 1 := by omega
+    rw [this]; exact Reach.refl 1
+
+-- non-vacuity: a 2×0 matrix (two empty rows, no column) and a 0×3 matrix, built by the model's `build`
+example : (SMat.build 0 2 0 ([[], []] : List (List (Nat × Int)))).WF ∧
+    (SMat.build 0 2 0 ([[], []] : List (List (Nat × Int)))).cols = 0 ∧
+    (SMat.build 0 2 0 ([[], []] : List (List (Nat × Int)))).transpose.rows = 0 ∧
+    connected (graphOf (SMat.build 0 2 0 ([[], []] : List (List (Nat × Int))))) = some false :=
+  ⟨SMat.build_WF 0 2 0 _ rfl (by decide) (by intro row hr e he; simp at hr; subst hr; cases he), rfl, rfl, by decide⟩
+example : (SMat.build 0 0 3 ([] : List (List (Nat × Int)))).WF ∧
+    (SMat.build 0 0 3 ([] : List (List (Nat × Int)))).rows = 0 ∧
+    connected (graphOf (SMat.build 0 0 3 ([] : List (List (Nat × Int))))) = some false ∧
+    connected (graphOf (SMat.build 0 0 1 ([] : List (List (Nat × Int))))) = some true :=
+  ⟨SMat.build_WF 0 0 3 _ rfl (by decide) (by intro row hr; cases hr), rfl, by decide, by decide⟩
 
 /-! ## The block-diagonal Cholesky equals the dense one block by block
 
